@@ -7,7 +7,7 @@ import decimal
 import re
 
 from . import drv   # noqa: F401  (sets sys.path to the working tree, silences library logging)
-from .drv import Watchdog, exc_outcome
+from .drv import Watchdog, exc_outcome, Headroom
 
 from cardutil import iso8583
 from cardutil.config import config as PKG
@@ -228,7 +228,7 @@ def do_loads(b, encoding, bit_config, hex_bitmap, rt=False, secs=4.0, secret='')
     arg = bytearray(b) if argk in (2, 5) else b
     cfgk = _pick(9, 'cfgl', len(b), bytes(b[-3:])) if isinstance(bit_config, dict) else 0
     try:
-        with Watchdog(secs):
+        with Watchdog(secs), Headroom(120, on=_pick(2, 'stack', len(b), bytes(b[4:9])) == 1):
             d = iso8583.loads(arg, encoding=encoding, iso_config=cfg_as(bit_config, cfgk if cfgk < 5 else 0), hex_bitmap=hex_bitmap)
             if isinstance(arg, bytearray):
                 arg[:] = b'\xee' * len(arg)          # the buffer is re-used; what was returned may not change
